@@ -1007,6 +1007,59 @@ statements above is vacuously about it. -/
 theorem build_B_zero [LinearOrder α] (ions : List (Frag α)) : buildIndex 0 ions = none := by
   simp [buildIndex]
 
+
+/-- **C03.runSeq_history_free** — statelessness of the query object: in ANY sequence of lookups made through
+one query object (any order: ascending peaks × charges, descending, random, repeats), the answer to a lookup
+is the from-scratch `lookup` of its own `(mz, charge)` — a function of the database, the query parameters and
+`(mz, charge)` only, whatever was looked up before or after it. (Trivial for the model, whose `page_search`
+only reads the query object; it is the statement the `pageseq` op ties to the real `IndexedQuery`.) -/
+theorem runSeq_history_free [Add α] [Mul α] [Div α] [LT α] [DecidableLT α] [LE α] [DecidableLE α]
+    (million hundred : α) (masses minv : Array α) (frags : List (Frag α)) (B : Nat)
+    (preTol fragTol : Tol α) (preMass : α) (pre post : List (α × α)) (x : α × α) :
+    (runSeq million hundred (mkQuery million hundred masses preTol fragTol preMass) masses minv frags B
+        (pre ++ x :: post))[pre.length]?
+      = some (lookup million hundred masses minv frags B preTol fragTol preMass x.1 x.2) := by
+  simp [runSeq, IQuery.pageSearch_eq_lookup]
+
+/-- **C03.runSeq_eq_map_lookup** — a sequence of lookups through one query object = a fresh query per lookup. -/
+theorem runSeq_eq_map_lookup [Add α] [Mul α] [Div α] [LT α] [DecidableLT α] [LE α] [DecidableLE α]
+    (million hundred : α) (masses minv : Array α) (frags : List (Frag α)) (B : Nat)
+    (preTol fragTol : Tol α) (preMass : α) (l : List (α × α)) :
+    runSeq million hundred (mkQuery million hundred masses preTol fragTol preMass) masses minv frags B l
+      = l.map fun x => lookup million hundred masses minv frags B preTol fragTol preMass x.1 x.2 := by
+  simp [runSeq, IQuery.pageSearch_eq_lookup]
+
+/-- **C03.lookup_exact** — a lookup (window arithmetic included) is the linear scan for its own window. -/
+theorem lookup_exact [Add α] [Mul α] [Div α] [LinearOrder α]
+    (million hundred : α) (masses minv : Array α) (frags : List (Frag α)) (B : Nat)
+    (inv : DbInv masses minv frags B) (preTol fragTol : Tol α) (preMass mz charge : α) :
+    lookup million hundred masses minv frags B preTol fragTol preMass mz charge
+      = (window million hundred preTol fragTol preMass mz charge).map (scan masses frags) := by
+  unfold lookup
+  cases window million hundred preTol fragTol preMass mz charge with
+  | none => rfl
+  | some q => simp [pageSearchC_exact masses minv frags B inv q]
+
+/-- **C03.runSeq_exact** — under the index invariant every answer of a lookup sequence is the exact filter of
+the whole fragment list for ITS OWN window: independent of the history and (with `buildIndex_inv`) of `B`. -/
+theorem runSeq_exact [Add α] [Mul α] [Div α] [LinearOrder α]
+    (million hundred : α) (masses minv : Array α) (frags : List (Frag α)) (B : Nat)
+    (inv : DbInv masses minv frags B) (preTol fragTol : Tol α) (preMass : α) (l : List (α × α)) :
+    runSeq million hundred (mkQuery million hundred masses preTol fragTol preMass) masses minv frags B l
+      = l.map fun x => (window million hundred preTol fragTol preMass x.1 x.2).map (scan masses frags) := by
+  rw [runSeq_eq_map_lookup]
+  apply List.map_congr_left
+  intro x _
+  exact lookup_exact million hundred masses minv frags B inv preTol fragTol preMass x.1 x.2
+
+/-- **C03.runSeq_perm** — reordering the lookups only reorders the answers. -/
+theorem runSeq_perm [Add α] [Mul α] [Div α] [LT α] [DecidableLT α] [LE α] [DecidableLE α]
+    (million hundred : α) (iq : IQuery α) (masses minv : Array α) (frags : List (Frag α)) (B : Nat)
+    (l l' : List (α × α)) (h : l.Perm l') :
+    (runSeq million hundred iq masses minv frags B l).Perm (runSeq million hundred iq masses minv frags B l') :=
+  h.map _
+
+
 /-! ## non-vacuity: concrete instances
 
 `exFrags` is an 11-fragment, 3-bucket index (`B = 4`, last bucket partial) over 4 peptides two of which
@@ -1056,5 +1109,14 @@ example : pairs (pageSearchC exMasses #[10, 30, 30, 50]
 /-- a broken layout (bucket 1 not sorted by peptide index) is rejected by the check -/
 example : dbInvClause exMasses exMinv
     [⟨0, 20⟩, ⟨1, 10⟩, ⟨2, 30⟩, ⟨3, 20⟩,   ⟨1, 30⟩, ⟨0, 30⟩, ⟨2, 40⟩, ⟨3, 30⟩,   ⟨1, 40⟩, ⟨2, 60⟩, ⟨3, 50⟩] 4 = "keysSorted" := by decide
+
+
+/-- non-vacuity of the sequence theorems: a non-monotone sequence through one query object on the 3-bucket
+    example index — the lookup of 30 after the higher 60 (and again after 20, and as `15 × charge 2`) still
+    sees buckets 0 and 1 -/
+example : (runSeq 1000000 100 (mkQuery 1000000 100 exMasses (.da 0 5) (.da 0 0) 100) exMasses exMinv exFrags 4
+    [(60, 1), (30, 1), (15, 2), (20, 1), (30, 1)]).map (Option.map pairs)
+    = [some [(2, 60)], some [(2, 30), (0, 30), (1, 30)], some [(2, 30), (0, 30), (1, 30)], some [(0, 20)],
+       some [(2, 30), (0, 30), (1, 30)]] := by decide
 
 end Sage.C03
